@@ -19,9 +19,25 @@ class Comma:
         return "Comma"
 
 
+def point_row(point) -> int:
+    """Row of a tree-sitter point, read by index.
+
+    py-tree-sitter's ``Point.row`` / ``Point.column`` getters hand out the stored
+    integer without taking a reference, so for values above the interpreter's
+    small-int cache (files longer than 256 lines, columns past 256) the integer
+    is freed while still in use and the process eventually crashes.
+    """
+    return point[0] if isinstance(point, tuple) else point.row
+
+
+def point_column(point) -> int:
+    """Column of a tree-sitter point, read by index (see ``point_row``)."""
+    return point[1] if isinstance(point, tuple) else point.column
+
+
 empty_line = EmptyLine()
 linebreak = Linebreak()
 comma = Comma()
 
 
-__all__ = ["empty_line", "linebreak", "comma"]
+__all__ = ["empty_line", "linebreak", "comma", "point_row", "point_column"]
